@@ -115,6 +115,8 @@ class ECDH1PUAlgModel(JWEKeyAgreement):
         if sender_key is None:
             raise InvalidExchangeKeyError("ECDH-1PU requires a sender key")
         assert recipient_key is not None
+        self.check_key_type(recipient_key)
+        self.check_key_type(sender_key)
 
         ephemeral_key = recipient_key.import_key(headers["epk"])
         sender_shared_key = recipient_key.exchange_derive_key(sender_key)
